@@ -266,6 +266,24 @@ Section Missing.
   Qed.
 
   (** with the fuel the model starts from, at every site: any parents, recorded name, field or not *)
+  Lemma outcome_fuel0 id is_field parents orig :
+    (in_reg r id \/ id = m) -> outcome (fuel0 r) id is_field parents orig.
+  Proof.
+    intros Hid. destruct Hid as [Hin| ->].
+    - apply resolve_rec_missing; [left; exact Hin|].
+      destruct Hres as (_ & _ & (_ & Hb) & _). pose proof (Hb _ Hin). unfold fuel0. lia.
+    - (* the missing id itself: no descent *)
+      unfold outcome, fuel0. rewrite resolve_rec_S.
+      assert (Hn : resolve r m = None).
+      { destruct (resolve r m) as [tm|] eqn:E; [|reflexivity]. exfalso.
+        destruct Hres as (Hm & _). apply Hm. eapply resolve_some_in_reg; exact E. }
+      destruct (find_parent parents m orig) as [p|] eqn:Efp.
+      + right. exists (TParam p). split; [reflexivity|]. split; [reflexivity|].
+        intros m' H. inversion H; congruence.
+      + left. unfold resolve_type. rewrite Hn. cbn [bind]. split; [reflexivity|].
+        apply RM_here; assumption.
+  Qed.
+
   Theorem missing_id_resolve_rec id is_field parents orig :
     (in_reg r id \/ id = m) ->
     (reaches_missing r parents id orig m ->
@@ -274,21 +292,7 @@ Section Missing.
      exists t, resolve_rec r s (fuel0 r) id is_field parents orig = Ok t /\
                exists toks, tp_tokens (alloc_tokens (s_alloc s)) t = Ok toks).
   Proof.
-    intros Hid.
-    assert (Hout : outcome (fuel0 r) id is_field parents orig).
-    { destruct Hid as [Hin| ->].
-      - apply resolve_rec_missing; [left; exact Hin|].
-        destruct Hres as (_ & _ & (_ & Hb) & _). pose proof (Hb _ Hin). unfold fuel0. lia.
-      - (* the missing id itself: no descent *)
-        unfold outcome, fuel0. rewrite resolve_rec_S.
-        assert (Hn : resolve r m = None).
-        { destruct (resolve r m) as [tm|] eqn:E; [|reflexivity]. exfalso.
-          destruct Hres as (Hm & _). apply Hm. eapply resolve_some_in_reg; exact E. }
-        destruct (find_parent parents m orig) as [p|] eqn:Efp.
-        + right. exists (TParam p). split; [reflexivity|]. split; [reflexivity|].
-          intros m' H. inversion H; congruence.
-        + left. unfold resolve_type. rewrite Hn. cbn [bind]. split; [reflexivity|].
-          apply RM_here; assumption. }
+    intros Hid. pose proof (outcome_fuel0 id is_field parents orig Hid) as Hout.
     destruct Hout as [(E & R)|(t & E & Pt & Hn)].
     - split; [intros _; exact E|intros Hc; contradiction].
     - split; [intros Hc; exfalso; exact (Hn m Hc)|].
